@@ -55,10 +55,19 @@ package kgo
 //@   frozen cl.producer.cl, cl.cfg.maxBufferedRecords, cl.cfg.maxBufferedBytes
 //@   token buffered 1
 //@   site store bufferedBytes#0 assume [record-size-counted-and-non-negative] userSize >= 0 && prev >= userSize
+//@   site call promise#0 assert [size-captured-before-the-user-promise-can-change-the-record] reached($userSize0)
+//@   site store bufferedBytes#0 assert [uncounts-the-captured-size] val == prev - $userSize0
 //@   site store bufferedRecords#0 ghost dec buffered
 //@   site store bufferedRecords#0 assert [uncounts-one] val == prev - 1 && prev >= 1
 //@   ensures [counted-records-are-uncounted-once] !beforeBuffering ==> mine(buffered) == 0
 //@   ensures [uncounted-records-are-not] beforeBuffering ==> mine(buffered) == 1
+
+// producer.flushing counts the Flush calls in progress (finishRecordPromise broadcasts at zero buffered records
+// while it is positive): every write to it in the package is an Add of +1 or -1, so overlapping Flush calls do not
+// clear each other's registration.
+//@ audit atomic producer.flushing
+//@   prop C03
+//@   deltas +1, -1
 
 // Flush's waiter closes `done` only when it was cancelled or nothing is buffered or blocked any more.
 //@ func (cl *Client) Flush$1()
